@@ -80,8 +80,10 @@ func prioNum(name string) int {
 	if p, ok := prioOf[name]; ok {
 		return p
 	}
-	return 999 // header absent or unknown group
+	return noGroup // header absent or unknown group
 }
+
+const noGroup = 999
 
 func quotaYAML(c config, unit string) string {
 	return fmt.Sprintf(`quotas:
@@ -181,16 +183,16 @@ type rq struct {
 	startSeq, checkSeq, regSeq int
 	arrivedAt                  time.Time
 
-	atSlot, slotReleased bool
-	registered           bool
-	verdicts             []bool
-	returned             bool
-	res                  engine.Result
+	atSlot, slotReleased  bool
+	registered            bool
+	verdicts              []bool
+	returned              bool
+	res                   engine.Result
 	atRemove, remReleased bool
 
 	handled      bool // the controller has processed its verdict
 	removed      bool
-	blockedTicks int // ticks survived as a waiter while the tick ended blocked
+	blockedTicks int       // ticks survived as a waiter while the tick ended blocked
 	t0, t1       time.Time // real instants (TTL unit only)
 }
 
@@ -227,7 +229,7 @@ func installHooks() {
 			} else {
 				r.verdicts = append(r.verdicts, c == "true")
 			}
-			w.log = append(w.log, logEv{kind, b})
+			w.log = append(w.log, logEv{kind, r.ID})
 			w.cond.Broadcast()
 		}
 		w.mu.Unlock()
@@ -416,8 +418,10 @@ type stop struct{ kind, msg string } // kind: infra | inconclusive | violation
 
 func (s *stop) Error() string { return s.kind + ": " + s.msg }
 
-func inconclusive(format string, a ...any) error { return &stop{"inconclusive", fmt.Sprintf(format, a...)} }
-func violation(format string, a ...any) error    { return &stop{"violation", fmt.Sprintf(format, a...)} }
+func inconclusive(format string, a ...any) error {
+	return &stop{"inconclusive", fmt.Sprintf(format, a...)}
+}
+func violation(format string, a ...any) error { return &stop{"violation", fmt.Sprintf(format, a...)} }
 
 // heldSlots / heldRemovals: goroutines currently parked in our yield handler, in arrival order.
 func (x *executor) heldSlots() []*rq {
@@ -509,9 +513,12 @@ func (x *executor) newVerdictsLocked() map[string]bool {
 
 func (x *executor) arrive(st step) error {
 	x.seq++
-	id := fmt.Sprintf("c%d-r%d", x.caseID, len(x.order)+1)
+	// id: the name used in messages (deterministic per schedule); txid: unique in the process, so that a
+	// goroutine left over from an earlier case can never be mistaken for one of this case
+	id := fmt.Sprintf("r%d", len(x.order)+1)
+	txid := fmt.Sprintf("c%d-%s", x.caseID, id)
 	r := &rq{ID: id, PrioName: st.Prio, P: prioNum(st.Prio), hold: st.Hold, holdRemove: st.HoldRemove, startSeq: x.seq, checkSeq: x.seq, arrivedAt: x.clk.Now()}
-	x.w.locked(func() { x.w.reqs[id] = r })
+	x.w.locked(func() { x.w.reqs[txid] = r })
 	x.order = append(x.order, r)
 	x.or.candidate(r.arrivedAt)
 	predFree := map[string]bool{}
@@ -523,7 +530,7 @@ func (x *executor) arrive(st step) error {
 	if st.Prio != "" {
 		h["x-prio"] = st.Prio
 	}
-	tx := engine.Txn{ID: id, Method: "GET", URL: "h.com/q", Path: "/q", Headers: h, Time: r.arrivedAt}
+	tx := engine.Txn{ID: txid, Method: "GET", URL: "h.com/q", Path: "/q", Headers: h, Time: r.arrivedAt}
 	go func() {
 		res := x.run(tx)
 		x.w.mu.Lock()
@@ -671,6 +678,11 @@ func (x *executor) finishVerdict(r *rq, allowed bool) error {
 }
 
 func better(w, a *rq) bool {
+	// which priority a request without a (known) group gets is not part of the statement (the code says
+	// 999, its comment says 0): such a request is never compared with a request of a configured group
+	if (w.P == noGroup) != (a.P == noGroup) {
+		return false
+	}
 	if w.P != a.P {
 		return w.P < a.P
 	}
@@ -941,7 +953,10 @@ func (x *executor) shutdown() error {
 	return nil
 }
 
-// abort releases everything so that no goroutine of this case stays parked.
+// abort releases everything so that no goroutine of this case stays parked. The drain is only
+// issued once every request that already has its verdict is out of the watcher's map (otherwise the
+// abort itself would run into C06-F3 and kill the worker); if that cannot be established the
+// remaining goroutines are left parked (harmless, and accounted for by the base counters).
 func (x *executor) abort() {
 	x.w.locked(func() {
 		for _, r := range x.order {
@@ -949,9 +964,22 @@ func (x *executor) abort() {
 		}
 		x.w.cond.Broadcast()
 	})
+	// released arrivals register (or return); verdicted requests return
+	x.w.wait(2*time.Second, func() bool {
+		for _, r := range x.order {
+			if !(r.registered || r.returned) || (len(r.verdicts) > 0 && !r.returned) {
+				return false
+			}
+		}
+		return true
+	})
+	settled := pollUntil(2*time.Second, func() bool { return countGoroutines(isRemoval)-x.baseRemovals <= 0 })
 	if !x.cancelled {
 		x.cancel()
 		x.cancelled = true
+	}
+	if !settled {
+		return
 	}
 	x.clk.Advance(tickStep)
 	x.w.wait(2*time.Second, func() bool {
@@ -1172,23 +1200,22 @@ func genSched() *rapid.Generator[sched] {
 			{"low"}, {"high", "low"}, {"mid", "mid", "low"}, {"", "other"},
 			{"high", "mid", "low", "low", "mid", "high", "", "other"},
 		}).Draw(t, "palette")
-		n := rapid.IntRange(1, 24).Draw(t, "len")
-		for i := 0; i < n; i++ {
+		stepGen := rapid.Custom(func(t *rapid.T) step {
 			switch k := rapid.IntRange(0, 19).Draw(t, "op"); {
 			case k < 10:
-				sc.Steps = append(sc.Steps, step{Op: "arrive",
+				return step{Op: "arrive",
 					Prio:       rapid.SampledFrom(palette).Draw(t, "prio"),
-					Hold:       rapid.IntRange(0, 5).Draw(t, "hold") == 0,
-					HoldRemove: rapid.IntRange(0, 5).Draw(t, "holdrm") == 0})
+					Hold:       rapid.IntRange(0, 5).Draw(t, "hold") == 5,
+					HoldRemove: rapid.IntRange(0, 5).Draw(t, "holdrm") == 5}
 			case k < 16:
-				sc.Steps = append(sc.Steps, step{Op: "tick",
-					N: rapid.SampledFrom([]int{1, 1, 1, 2, 3, 5, 9, 10 * sc.Config.WindowS, 10*sc.Config.WindowS + 1}).Draw(t, "ticks")})
+				return step{Op: "tick",
+					N: rapid.SampledFrom([]int{1, 1, 1, 2, 3, 5, 9, 10 * sc.Config.WindowS, 10*sc.Config.WindowS + 1}).Draw(t, "ticks")}
 			case k < 18:
-				sc.Steps = append(sc.Steps, step{Op: "release", N: rapid.IntRange(0, 3).Draw(t, "which")})
-			default:
-				sc.Steps = append(sc.Steps, step{Op: "remove", N: rapid.IntRange(0, 3).Draw(t, "which")})
+				return step{Op: "release", N: rapid.IntRange(0, 3).Draw(t, "which")}
 			}
-		}
+			return step{Op: "remove", N: rapid.IntRange(0, 3).Draw(t, "which")}
+		})
+		sc.Steps = rapid.SliceOfN(stepGen, 1, 24).Draw(t, "steps")
 		if rapid.IntRange(0, 3).Draw(t, "tail") == 0 {
 			k := rapid.IntRange(1, 2).Draw(t, "ntail")
 			for i := 0; i < k; i++ {
